@@ -185,6 +185,12 @@ def run_case(case, seed):
                     for j in range(nev):
                         check_pair(float(np.real(evl[j])), xl[j], A, 'nev=%d j=%d reps=%d sigma=%s' % (nev, j, reps, sig_name))
                         r.le(key + ':below-lambda-max', float(np.real(evl[j])), lmax, 1e-8 * (1 + abs(lmax)))
+                    if nev == 1 and reps == 1 and sig_name == 'above' and solver != 'eigs':
+                        # real=False only stops the routine from taking real parts: for a Hermitian pencil the same pair, with an
+                        # eigenvalue whose imaginary part vanishes up to rounding
+                        ev_c, xt_c, _ = run(guess, A, False, number_ev=1, repeats=1, sigma=sigma, real=False, **kw0)
+                        r.true(key + ':real-flag', abs(complex(ev_c) - float(np.real(evl[0]))) <= 1e-8 * (1 + abs(lmax)), 'real=False: %r, real=True: %r' % (ev_c, evl[0]))
+                        xc_ = check_pair(float(np.real(ev_c)), xt_c, A, 'real=False')
                     if nev == 1:
                         dist = abs(float(np.real(evl[0])) - sigma)
                         if prevd is not None:
